@@ -2,6 +2,7 @@
 //! column of a stratum that is still improving only through an upward-closed test.
 use ascent::lattice::constant_propagation::ConstPropagation;
 use ascent::lattice::set::Set;
+use ascent::aggregators::count;
 use ascent::Dual;
 
 use crate::gens;
@@ -212,6 +213,47 @@ defprog! {
    }
 }
 
+
+// count() over a full scan of a lattice whose rows improve several times (C02 only: known finding)
+defprog! {
+   name: lattice_count_scan;
+   timeouts: no;
+   positive: false;
+   tags: ["c02", "lattice", "agg"];
+   rels: {
+      relation edge(u32, u32, u32) [input];
+      lattice best(u32, Dual<u32>) [];
+      relation n_best(usize) [];
+   }
+   gens: [("diamond", gens::diamond), ("random", gens::random), ("dense", gens::dense)];
+   rules: {
+      best(x, Dual(20 + (x * 7) % 11)) <-- edge(x, _, _);
+      best(y, Dual(d.0 + w)) <-- best(x, d), edge(x, y, w);
+      n_best(n) <-- agg n = count() in best(_, _);
+   }
+}
+
+// body clauses that match a constant in the lattice column (C02 only: known finding, same root as
+// `lattice_bound_value`)
+defprog! {
+   name: lattice_value_match;
+   timeouts: no;
+   positive: true;
+   tags: ["c02", "lattice"];
+   rels: {
+      relation init(u32, u32) [input];
+      lattice lat(u32, u32) [];
+      relation hit(u32, u32) [];
+   }
+   gens: [("random", gens::random), ("small", gens::small)];
+   rules: {
+      lat(x, *v) <-- init(x, v);
+      hit(x, 2) <-- lat(x, 2);
+      hit(x, 3) <-- lat(x, 3);
+      hit(x, 4) <-- lat(x, 4);
+   }
+}
+
 pub fn all() -> Vec<ProgramDef> {
-   vec![shortest_path::def(), longest_bounded::def(), const_prop::def(), reach_sets::def(), lat_noindex::def(), write_only_heads::def(), lattice_then_walk::def(), lattice_bound_value::def(), lattice_tail_clause::def()]
+   vec![shortest_path::def(), longest_bounded::def(), const_prop::def(), reach_sets::def(), lat_noindex::def(), write_only_heads::def(), lattice_then_walk::def(), lattice_bound_value::def(), lattice_tail_clause::def(), lattice_count_scan::def(), lattice_value_match::def()]
 }
